@@ -1,0 +1,67 @@
+//go:build verif
+
+package parser
+
+// Contracts for indent_aware_lexer.go. Comment-only: read by the verifier in /verif/govc.
+//
+// The lexer's object invariant ties the INDENT/DEDENT tokens ever put into the token queue (the
+// queue's ghost history, see internal/container) to the indentation stack:
+//   #INDENT - #DEDENT == number of open indentations, which are strictly increasing and positive.
+//
+//@ pure func (ial *IndentAwareLexer) hist() seq[antlr.Token] { return (&ial.pendingTokens).hist }
+//@ pure func (ial *IndentAwareLexer) stk() seq[int] { return seq(*(&ial.indents)) }
+//@ pure func (ial *IndentAwareLexer) open() int {
+//@     return tokCount(ial.hist(), YarnSpinnerLexerINDENT) - tokCount(ial.hist(), YarnSpinnerLexerDEDENT) }
+//@ pred (ial *IndentAwareLexer) bufOK() {
+//@     arrayOf((&ial.pendingTokens).base) == old(arrayOf((&ial.pendingTokens).base)) || fresh((&ial.pendingTokens).base) }
+//@ pred (ial *IndentAwareLexer) wf() {
+//@     ial != nil && ial.BaseLexer != nil && (&ial.pendingTokens).wf() &&
+//@     ial.open() == len(ial.stk()) &&
+//@     (forall k int :: {ial.hist()[k]} 0 <= k && k < len(ial.hist()) ==> dyntype(ial.hist()[k]) != 0) &&
+//@     (forall i int :: {ial.stk()[i]} 0 <= i && i < len(ial.stk()) ==> ial.stk()[i] > 0) &&
+//@     (forall i int, j int :: {ial.stk()[i], ial.stk()[j]} 0 <= i && i < j && j < len(ial.stk()) ==> ial.stk()[i] < ial.stk()[j]) }
+//
+//@ func (ial *IndentAwareLexer) insertToken(text string, tokenType int)
+//@   requires ial != nil && ial.BaseLexer != nil && (&ial.pendingTokens).wf()
+//@   requires "never-closes-more-than-opened": tokenType == YarnSpinnerLexerDEDENT ==> ial.open() > 0
+//@   modifies fields(&ial.pendingTokens), elems((&ial.pendingTokens).base)
+//@   ensures  (&ial.pendingTokens).wf()
+//@   ensures  "one-token-of-that-type": exists t antlr.Token :: tokType(t) == tokenType && dyntype(t) != 0 && ial.hist() == snoc(old(ial.hist()), t)
+//@   ensures  (&ial.pendingTokens).ndeq == old((&ial.pendingTokens).ndeq)
+//@   ensures  "buffer-same-or-fresh": ial.bufOK()
+//
+//@ func (ial *IndentAwareLexer) getLengthOfNewlineToken(currentToken antlr.Token) (res int)
+//@   requires dyntype(currentToken) != 0
+//@   ensures  "non-negative": res >= 0
+//@   loop 0: invariant length >= 0
+//
+//@ func (ial *IndentAwareLexer) handleNewLineToken(currentToken antlr.Token)
+//@   requires ial.wf() && dyntype(currentToken) != 0 && tokType(currentToken) != YarnSpinnerLexerINDENT && tokType(currentToken) != YarnSpinnerLexerDEDENT
+//@   modifies fields(&ial.pendingTokens), elems((&ial.pendingTokens).base), *(&ial.indents), elems(*(&ial.indents))
+//@   ensures  "wf": ial.wf()
+//@   ensures  "grows": (&ial.pendingTokens).ndeq == old((&ial.pendingTokens).ndeq) && len(ial.hist()) > len(old(ial.hist())) && ial.bufOK()
+//@   loop 0: invariant "balance": ial.wf() && (&ial.pendingTokens).ndeq == old((&ial.pendingTokens).ndeq) && len(ial.hist()) > len(old(ial.hist())) && ial.bufOK()
+//@   loop 0: invariant "prev": previousIndent == (len(ial.stk()) > 0 ? ial.stk()[len(ial.stk()) - 1] : 0)
+//@   loop 0: decreases len(ial.stk())
+//
+//@ func (ial *IndentAwareLexer) handleEndOfFileToken(currentToken antlr.Token)
+//@   requires ial.wf() && dyntype(currentToken) != 0 && tokType(currentToken) != YarnSpinnerLexerINDENT && tokType(currentToken) != YarnSpinnerLexerDEDENT
+//@   modifies fields(&ial.pendingTokens), elems((&ial.pendingTokens).base), *(&ial.indents)
+//@   ensures  "wf": ial.wf()
+//@   ensures  "balanced-then-eof": ial.open() == 0 && len(ial.stk()) == 0 &&
+//@            (exists h seq[antlr.Token] :: ial.hist() == snoc(h, currentToken))
+//@   ensures  "grows": (&ial.pendingTokens).ndeq == old((&ial.pendingTokens).ndeq) && len(ial.hist()) > len(old(ial.hist())) && ial.bufOK()
+//@   loop 0: invariant "balance": ial.wf() && (&ial.pendingTokens).ndeq == old((&ial.pendingTokens).ndeq) && len(ial.hist()) >= len(old(ial.hist())) && ial.bufOK()
+//@   loop 0: decreases len(ial.stk())
+//
+//@ func (ial *IndentAwareLexer) checkNextToken()
+//@   requires ial.wf()
+//@   modifies fields(&ial.pendingTokens), elems((&ial.pendingTokens).base), *(&ial.indents), elems(*(&ial.indents))
+//@   ensures  "wf": ial.wf()
+//@   ensures  "grows": (&ial.pendingTokens).ndeq == old((&ial.pendingTokens).ndeq) && len(ial.hist()) > len(old(ial.hist())) && ial.bufOK()
+//
+//@ func (ial *IndentAwareLexer) NextToken() (res antlr.Token)
+//@   requires ial.wf()
+//@   modifies ial.hitEOF, fields(&ial.pendingTokens), elems((&ial.pendingTokens).base), *(&ial.indents), elems(*(&ial.indents))
+//@   ensures  "wf": ial.wf()
+//@   ensures  "never-nil": dyntype(res) != 0
